@@ -587,10 +587,7 @@ impl<'r, 'c, 's, W: Write> DatumSerializer<'r, 'c, 's, W> {
 				let bytes = n.to_be_bytes();
 				let buf = match decimal.repr {
 					DecimalRepr::Bytes => {
-						let mut start = 0;
-						while start < bytes.len() - 1 && bytes[start] == 0 {
-							start += 1;
-						}
+						let start = decimal::can_truncate_without_altering_number(&bytes);
 						let buf = &bytes[start..];
 						self.state
 							.writer
@@ -606,6 +603,21 @@ impl<'r, 'c, 's, W: Write> DatumSerializer<'r, 'c, 's, W> {
 						let start = bytes.len().checked_sub(fixed.size).ok_or_else(|| {
 							SerError::custom("Decimals of size larger than 16 are not supported")
 						})?;
+						// We are going to truncate the number - make sure that doesn't alter it
+						let fits = match bytes.get(0..start + 1) {
+							Some(relevant_buf_for_check) => {
+								decimal::can_truncate_without_altering_number(relevant_buf_for_check)
+									>= start
+							}
+							// Size is zero: we only know how to represent 0 (empty bytes)
+							None => n == 0,
+						};
+						if !fits {
+							return Err(SerError::custom(format_args!(
+								"Decimal number does not fit in `fixed` field size (fixed size: {})",
+								fixed.size
+							)));
+						}
 						&bytes[start..]
 					}
 				};
